@@ -227,7 +227,9 @@ def judge(case):
             return ("violated", "C19:not-evaluated:%s:%s" % ("float" if ref[2] else "int", case["feature"]), res)
         want = ref[1]
         if ref[2]:
-            ok = got == want or abs(got - want) <= 4 * abs(math.ulp(want))
+            # + - * / are correctly rounded in IEEE arithmetic: the result is exact to the bit, and Rust prints the
+            # shortest text that reads back as the same double; only `^` (powf vs pow) gets a few ulps of tolerance
+            ok = got == want or ("^" in line and abs(got - want) <= 4 * abs(math.ulp(want)))
         else:
             ok = got == want
         if not ok:
@@ -241,7 +243,8 @@ def judge(case):
 
 
 INTS = [0, 1, 2, 3, 7, 10, 100, 65536, 2 ** 31 - 1, 2 ** 31, 2 ** 32, 2 ** 62, 2 ** 63 - 1, 2 ** 63, 2 ** 64, 10 ** 19]
-DECS = ["0.5", "1.5", "2.0", "3.25", "10.0", "0.1", "7.", "100.125"]
+# (mostly decimals that are not exact in binary, and magnitudes far apart: regrouping or reordering changes the rounding)
+DECS = ["0.5", "1.5", "2.0", "3.25", "10.0", "0.1", "7.", "100.125", "0.2", "0.3", "0.7", "0.9", "1.1", "2.675", "100000000000000000000.0", "0.000001"]
 
 
 def gen_tree(rng, depth, float_mode):
@@ -310,6 +313,16 @@ def gen_cases(tier, seed):
         cases.append({"line": s, "binary": rng.choice(["debug", "nochecks"]), "form": rng.choice(["c", "sub", "sub", "bq"]),
                       "pad": rng.choice([("", ""), ("", ""), (" ", ""), ("", " "), (" ", " "), ("  ", "  ")]),
                       "feature": feature_of(s), "cls": "flat"})
+    # every pair of the four exact operators over decimals that are not exact in binary: grouping and order of
+    # evaluation show in the last bit (`a + b - c` is `(a + b) - c`)
+    sens = ["0.1", "0.2", "0.3", "0.7", "1.1", "100000000000000000000.0"]
+    for o1 in "+-*/":
+        for o2 in "+-*/":
+            for x in sens:
+                for y in sens:
+                    for z in (sens if thorough else sens[:3]):
+                        e = "%s %s %s %s %s" % (x, o1, y, o2, z)
+                        cases.append({"line": e, "binary": "debug", "form": "c", "feature": "float-triple:%s%s" % (o1, o2), "cls": "float-triple"})
     # every operator on every pair of boundary operands
     bounds = ["(-9223372036854775808)", "9223372036854775807", "(-1)", "0", "1", "(-9223372036854775807)", "2", "64"]
     for a in bounds:
@@ -357,7 +370,7 @@ def run(tier, seed):
     rep = Report("C19", tier, seed)
     rep.rule = ("random expression trees (depth<=5) over boundary operands (0, +-1.., 2^31, 2^63-1, 2^63, 2^64, 10^19, "
                 "exponents 0..70, decimals), random spacing and redundant parentheses, on the debug and the "
-                "no-overflow-check binary, as `-c EXPR`, `$(EXPR)` and backquoted, with and without blanks around the expression; all operator pairs (thorough: triples); every "
+                "no-overflow-check binary, as `-c EXPR`, `$(EXPR)` and backquoted, with and without blanks around the expression; all operator pairs (thorough: triples); every pair of + - * / over inexact decimals (bit-exact comparison); every "
                 "string of length<=4 (thorough 5) over `0 1 9 . + - * / ^ ( ) blank` that the classification rule "
                 "accepts.  Non-trivial = contains an operator; distinct by (line, binary, form).")
     rep.assumptions = ["reference evaluator and PEG-equivalent parser in lib/c19.py", "float results compared within 4 ulp"]
